@@ -159,6 +159,9 @@ impl<DataInterfaceType: DeduplicationDataInterface> FileDeduper<DataInterfaceTyp
         // Now, go through and process the result of the query.
         let mut cur_idx = 0;
 
+        // Chunks before this index are part of a dedup hit that fragmentation prevention rejected.
+        let mut defrag_rejected_until = 0;
+
         while cur_idx < chunks.len() {
             let mut dedupe_query = deduped_blocks[cur_idx].take();
 
@@ -185,13 +188,19 @@ impl<DataInterfaceType: DeduplicationDataInterface> FileDeduper<DataInterfaceTyp
                     cur_idx += n_deduped;
                     continue;
                 } else {
-                    dedup_metrics.defrag_prevented_dedup_chunks += n_deduped;
-                    dedup_metrics.defrag_prevented_dedup_bytes += fse.unpacked_segment_bytes as usize;
+                    defrag_rejected_until = defrag_rejected_until.max(cur_idx + n_deduped);
                 }
             }
 
             // Okay, now we need to add new data.
             let n_bytes = chunks[cur_idx].data.len();
+
+            // Count it as withheld from dedup only now that it really is uploaded again; later chunks
+            // of a rejected hit may still be deduplicated against the xorb being built.
+            if cur_idx < defrag_rejected_until {
+                dedup_metrics.defrag_prevented_dedup_chunks += 1;
+                dedup_metrics.defrag_prevented_dedup_bytes += n_bytes;
+            }
 
             dedup_metrics.total_chunks += 1;
             dedup_metrics.total_bytes += n_bytes;
